@@ -271,6 +271,27 @@ def vcfPositionMemo : List Step :=
   [ .view 2 1 (fun c => List.range c.length),                    -- memo hit: the cached array itself
     .write 2 [] (fun cur _ => cur.map (· - 1)) ]
 
+/-- every NumPy / npstructures / bionumpy step the programs above rely on, with the tag the model gives it
+(`true` = the result ALIASES its source: `view`; `false` = the result lives in a fresh buffer: `alloc`).
+`Gen.C20.stepAliasing` holds the same list as measured with `np.shares_memory` on the running code. -/
+def modelTags : List (String × Bool) :=
+  [ ("as_encoded_array(x) of an encoded ragged x", true),               -- strToIntNoCopy / decimalStrToFloatDirect: `view 2 0`
+    ("EncodedRaggedArray.copy()", false),                               -- strToInt: `alloc 2 [0]`
+    ("ragged[bool mask], materialised", false),                         -- strToFloat: `alloc 2 [0, 1] selRows`
+    ("gather through RaggedView2 (field text of a file buffer)", false), -- parseSplitFields / genotypePreprocess: `alloc 2 [0, 1] gather`
+    ("ragged.ravel() of contiguous data", true),                        -- genotypeEncode: `view 1 0`
+    ("ndarray basic slice a[:n]", true),                                -- bincountReduce: `view 2 0`
+    ("np.maximum.accumulate(a)", false),                                -- mergeIntervals: `alloc 2 [1] acc`
+    ("table[bool mask] column", false),                                 -- mergeIntervals: `alloc 4 [0, 3] pickStart`
+    ("ndarray[bool mask]", false),                                      -- mergeIntervals: `alloc 5 [2, 3] pickStop`
+    ("np.bincount(a)", false),                                          -- bincountStream: `alloc 2 [0] count`
+    ("fresh ragged selection .copy() after ravel", false),              -- strToIntFresh: `alloc 2 [0]`
+    ("str_to_int result", false),
+    ("str_to_float result", false),
+    ("merge_intervals result start/stop", false),
+    ("GenotypeRowEncoding.encode result", false),
+    ("VCF position column of a lazily read chunk, two accesses", false) ]  -- vcfPosition: `alloc 1 [0] parse` (no memo)
+
 /-! ### concrete semantics used by the correspondence driver (ASCII decimal rows) -/
 
 /-- value of a row of ASCII digits (after sign zeroing), as the power-array dot product -/
